@@ -194,6 +194,23 @@ def successors(state):
                     d3["items"][k]["type"] = ("ref", nid)
                     yield emit(("introduce_alias", d["name"], d["items"][k]["name"]), ns)
                     break
+    # 4a'. ... for the ELEMENT type of an array field: uint5[3] -> type Al = uint5; Al[3]
+    for stem, d, cont, i, path in sym.all_defs(s):
+        if d["kind"] != "msg":
+            continue
+        for k, it in enumerate(d["items"]):
+            if it["kind"] == "field" and it["type"][0] == "arr" and it["type"][1][0] in ("uint", "int", "bool", "byte"):
+                t = it["type"]
+                ns = sym.clone(s)
+                stem2, d2, cont2, i2, path2 = sym.find(ns, d["id"])
+                nid = sym.max_id(ns) + 1
+                a = dict(kind="alias", id=nid, name="El%d" % nid, type=t[1])
+                top = _top_index(ns, stem2, d["id"])
+                ns["files"][stem2]["defs"].insert(top, a)
+                _, d3, _, _, _ = sym.find(ns, d["id"])
+                d3["items"][k]["type"] = ("arr", ("ref", nid)) + tuple(t[2:])
+                yield emit(("introduce_element_alias", d["name"], it["name"]), ns)
+                break
     # 4b. inline an alias everywhere
     for stem, d, cont, i, path in sym.all_defs(s):
         if d["kind"] == "alias":
@@ -419,7 +436,8 @@ def run_unit(unit):
                                       replay=dict(kind="c12", root=ridx, state=pack(state)))
                         break
                 # C on a fixed sub-scope: every c_every-th state
-                if k % c_every == 0:
+                # ... and every state at depth 1 (each single rewrite is seen by the C runtime at least once)
+                if k % c_every == 0 or len(hist) <= 1:
                     _c_check(rname, state, hist, proto, pkt, leaves, vecs, root_bytes, sc, out, "c%d" % k, ridx)
                 if k < 3 or k == len(order) - 1:
                     out.sample(dict(root=rname, history=[list(map(str, e)) for e in hist], schema=texts(state)["t.bitproto"][-400:], values=len(vecs)))
@@ -521,7 +539,7 @@ def main(pid, tier):
     acc.merge(run_units(units(tier), run_unit, maxtasks=4))
     c = acc.counters
     g = []
-    for need in ("rename", "rename_shadow", "rename_members", "rename_fields", "reorder_fields", "renumber", "introduce_alias", "inline_alias", "swap_definitions",
+    for need in ("rename", "rename_shadow", "rename_members", "rename_fields", "reorder_fields", "renumber", "introduce_alias", "introduce_element_alias", "inline_alias", "swap_definitions",
                  "lift_to_top", "nest_into", "move_to_import", "capacity_constant", "style", "comments"):
         if acc.classes.get("rewrite:" + need, 0) < 1:
             g.append("rewrite %s never applied" % need)
